@@ -30,6 +30,28 @@ lists - never from TokenEncoder): the call either raises or returns a str that
       all reserved words + all strings of length <= 3);
   (5) equals the input when the input is already valid (syntax ok, no encoding rule matches anywhere, not reserved, no
       applicable reserved pattern matches).
+
+Histories ("the result depends only on the input" - and on the language's configuration - also on long-lived objects
+and in a long-lived process):
+  (6) refused call ; next call, on ONE language object: for every language x configuration of CONFIGS + HIST_CONFIGS
+      (three more configurations in which the stropped form of a reserved word is itself reserved / reserved words cannot
+      be stropped at all / the stropped form needs encoding, so that strop refuses in each of its verification stages),
+      every call that is refused (raises) among REFUSAL_CANDIDATES x id types is a row; on a fresh object per row the
+      history (refused call ; follower)* is driven so that EVERY follower call comes directly after a refusal; followers:
+      all strings of length 1..3 over HIST_ALPHABET (letters, '_', digit, blank, '-', non-ASCII: every position of a
+      character that needs encoding) + the candidates (incl. the refused token itself), x all id types, for the first
+      refused call of every refused token (thorough: of every row); a 35-token list incl. the refused token for the other
+      rows. Demanded: the follower's outcome equals the outcome of the same call on an object that never refused anything
+      (reference: objects with only successful calls in their history, renewed after every raise), and satisfies
+      (1)-(3),(5). A difference is re-executed as the 2-step history [refused ; follower] on a fresh object against the
+      follower alone on a fresh object before it is reported.
+  (7) language X created and used ; language Y created and used, in ONE process: for every ordered pair of
+      (language, configuration) nodes (quick: all pairs of the 15 nodes {c, cpp, py} x PAIR_CORE_CONFIGS + the
+      seed-selected 1/16 of the remaining pairs; thorough: all 24 x 24), each history runs in its own process forked from a
+      freshly started interpreter that has imported nunavut but created nothing; PAIR_TOKENS (every word that some
+      configuration reserves and another does not, the doctest tokens, tokens needing encoding) x all id types are
+      evaluated on X and then on Y. Demanded: Y's outcomes equal the outcomes of the same node evaluated first in its
+      process, and satisfy (1)-(3),(5) for Y's configuration.
 """
 from __future__ import annotations
 
@@ -70,6 +92,34 @@ CONFIGS: typing.Dict[str, typing.Dict[str, typing.Any]] = {
         "whitespace_encoding_char": "_",
     },
 }
+# Configurations explored by the history families only (the token space above is not multiplied by them): each makes strop
+# refuse (raise) legitimately, in a different verification stage.
+HIST_CONFIGS: typing.Dict[str, typing.Dict[str, typing.Any]] = {
+    # the stropped forms of a reserved word are reserved themselves (keyword re-check refuses; C/C++: after the handler)
+    "resv": {"reserved_identifiers": ["payload", "timestamp", "if", "_if", "__if", "if_", "if__"]},
+    # no prefix, no suffix: a reserved word / a pattern match cannot be stropped at all
+    "noaffix": {"stropping_prefix": "", "stropping_suffix": ""},
+    # the stropped form needs encoding again (the final encoding re-check refuses)
+    "encaffix": {"stropping_prefix": "-", "stropping_suffix": "-"},
+}
+ALL_CONFIGS: typing.Dict[str, typing.Dict[str, typing.Any]] = {**CONFIGS, **HIST_CONFIGS}
+# configurations that must make at least one of REFUSAL_CANDIDATES refuse in every language (vacuity guard)
+MUST_REFUSE = ["doctest", "resv", "noaffix", "encaffix"]
+REFUSAL_CANDIDATES = [
+    "if", "class", "register", "None", "print", "payload", "timestamp", "_if", "__if", "if_", "if__",
+    "reservedToken", "this_is_reserved", "_pre_reservedToken_post_", "__x", "_Ax", "1x", "EINVAL", "strlen", "int8_t", "NULL",
+]  # fmt: skip
+HIST_ALPHABET = ["a", "E", "_", "1", " ", "-", "\u2764"]
+HIST_MAX_LEN = 3
+HIST_SMALL_ALPHABET = ["a", "_", "1", " ", "-"]
+HIST_SMALL_EXTRA = ["a a", "a-a", "a\u2764a", "my value", "E1"]
+PAIR_CORE_CONFIGS = ["default", "doc1", "nostrop", "doctest", "resv"]
+PAIR_TOKENS = [
+    "payload", "timestamp", "if", "_if", "__if", "if_", "if__", "class", "None", "print", "register", "int8_t", "EINVAL",
+    "__x", "_Ax", "1x", "a", "A", "_", "a b", "a-b", "a\u2764", " a", "my value", "value",
+]  # fmt: skip
+PAIR_SHARDS = 6
+
 # the example tokens of that doctest
 DOCTEST_TOKENS = ["this_is_not_reserved", "this_is_reserved", "reservedVariableName", "1CantStartWithNumber", "Mem set",
                   "reservedToken", "foobar", "well_crap"]  # fmt: skip
@@ -138,7 +188,7 @@ def _merge(base: typing.Any, over: typing.Any) -> typing.Any:
 
 
 def effective(lang: str, cfg: str) -> dict:
-    return typing.cast(dict, _merge(sections()[lang], CONFIGS[cfg]))
+    return typing.cast(dict, _merge(sections()[lang], ALL_CONFIGS[cfg]))
 
 
 def python_reserved() -> typing.List[str]:
@@ -380,7 +430,7 @@ def make_language(lang: str, cfg: str) -> typing.Any:
     from nunavut.lang import LanguageContextBuilder
 
     b = LanguageContextBuilder(include_experimental_languages=True).set_target_language(lang)
-    for k, val in CONFIGS[cfg].items():
+    for k, val in ALL_CONFIGS[cfg].items():
         b.set_target_language_configuration_override(k, val)
     lo = b.create().get_target_language()
     spec = Spec(lang, cfg)
@@ -489,6 +539,15 @@ def evaluate(
 
 def _work(job: tuple) -> dict:
     kind, lang, cfg = job[0], job[1], job[2]
+    if kind in ("refusal", "pairs"):
+        # history families: own (fresh) language objects / own processes; nothing is shared with the other jobs
+        res = {"bag": Bag(), "classes": set(), "tokens": 0, "evals": 0, "nontrivial": 0, "raised": 0, "already_valid": 0,
+               "lang": lang, "cfg": cfg, "kind": kind, "det": None, "space": 0, "handlers": {}, "instrumented": 0}  # fmt: skip
+        if kind == "refusal":
+            refusal_job(lang, cfg, job[3], res)
+        else:
+            pairs_job(job[3], job[4], job[5], res)
+        return res
     lo, spec, counters = _worker_lang(lang, cfg)
     before = dict(counters)
     res = {"bag": Bag(), "classes": set(), "tokens": 0, "evals": 0, "nontrivial": 0, "raised": 0, "already_valid": 0,
@@ -613,6 +672,295 @@ def compare_processes(ctx: Ctx, mine: typing.Dict[str, list], docs: typing.Dict[
     return compared
 
 
+# ------------------------------------------------------------------------------------------ histories (6): refused ; next
+def facts_str(f: typing.Tuple[bool, bool, bool, bool]) -> str:
+    return "".join("SERP"[i] if b else "-" for i, b in enumerate(f))
+
+
+def hist_followers(deep: bool, own: str) -> typing.List[str]:
+    """The follower tokens of one row (deterministic; `own` = the refused token of the row)."""
+    if deep:
+        toks = list(strings(HIST_ALPHABET, 1, HIST_MAX_LEN)) + HIST_SMALL_EXTRA + REFUSAL_CANDIDATES
+    else:
+        toks = list(strings(HIST_SMALL_ALPHABET, 1, 2)) + HIST_SMALL_EXTRA
+    return list(dict.fromkeys(toks + [own]))
+
+
+def needs_inner_encoding(spec: Spec, token: str, id_type: str) -> bool:
+    """The token needs encoding, and not (only) at its first character."""
+    return len(token) > 1 and spec.needs_encoding(token, id_type) and any(
+        p.search(token, 1) is not None for _, _, p in spec.enc_for[id_type]
+    )
+
+
+def refusal_reference(lang: str, cfg: str) -> typing.Tuple[typing.Dict[typing.Tuple[str, str], Outcome], int]:
+    """Outcome of every (follower, id_type) on objects that never refused anything before the call."""
+    ref: typing.Dict[typing.Tuple[str, str], Outcome] = {}
+    lo = None
+    objects = 0
+    for token in hist_followers(True, REFUSAL_CANDIDATES[0]):
+        for id_type in ID_TYPES:
+            if lo is None:
+                lo = make_language(lang, cfg)
+                objects += 1
+            out = call(lo, token, id_type)
+            ref[(token, id_type)] = out
+            if out[0] != "ok":
+                lo = None  # this object has a refusal in its history now: not a reference any more
+    return ref, objects
+
+
+def two_step(lang: str, cfg: str, refused: typing.Sequence[str], token: str, id_type: str) -> typing.Tuple[Outcome, Outcome, Outcome]:
+    """(the refused call, the follower after it on the same fresh object, the follower alone on another fresh object)."""
+    lo = make_language(lang, cfg)
+    first = call(lo, refused[0], refused[1])
+    after = call(lo, token, id_type)
+    alone = call(make_language(lang, cfg), token, id_type)
+    return first, after, alone
+
+
+def chain(lang: str, cfg: str, refused: typing.Sequence[str], deep: bool, upto: typing.Tuple[str, str]) -> Outcome:
+    """Re-drives (refused ; follower)* of one row on a fresh object up to and including the follower `upto`."""
+    lo = make_language(lang, cfg)
+    for f in hist_followers(deep, refused[0]):
+        for id_type in ID_TYPES:
+            call(lo, refused[0], refused[1])
+            out = call(lo, f, id_type)
+            if (f, id_type) == tuple(upto):
+                return out
+    raise HarnessError(f"follower {upto} is not part of the row {refused} of {lang}/{cfg}")
+
+
+def refusal_job(lang: str, cfg: str, thorough: bool, res: dict) -> None:
+    bag: Bag = res["bag"]
+    spec = Spec(lang, cfg)
+    ref, ref_objects = refusal_reference(lang, cfg)
+    h = {"rows": 0, "deep_rows": 0, "followups": 0, "refused_calls": 0, "inner_encoding_followups": 0, "objects": ref_objects,
+         "refusal_followers": 0, "reference_calls": len(ref), "differences": 0, "shapes": set()}  # fmt: skip
+    res["hist"] = h
+    # the reference outcomes are judged like any other call (this is the only place the HIST_CONFIGS meet oracle (1)-(3),(5))
+    for (token, id_type), out in ref.items():
+        f = spec.facts(token, id_type)
+        h["shapes"].add((lang, f, shape(spec, token, out, f)))
+        for kind, feature, what in judge(spec, token, id_type, out, f):
+            bag.add(
+                {"kind": kind, "lang": lang, "config": cfg, "id_type": id_type, "feature": feature},
+                {"mode": "oracle", "lang": lang, "config": cfg, "id_type": id_type, "token": token},
+                f"[{lang}/{cfg}/{id_type}] {what}",
+            )
+    rows = [(t, i) for t in REFUSAL_CANDIDATES for i in ID_TYPES if ref[(t, i)][0] == "exc"]
+    h["refused_calls"] = len(rows)
+    seen_tokens: set = set()
+    for rt, ri in rows:
+        deep = thorough or rt not in seen_tokens
+        seen_tokens.add(rt)
+        h["rows"] += 1
+        h["deep_rows"] += 1 if deep else 0
+        lo = make_language(lang, cfg)
+        h["objects"] += 1
+        for token in hist_followers(deep, rt):
+            for id_type in ID_TYPES:
+                first = call(lo, rt, ri)
+                out = call(lo, token, id_type)
+                h["followups"] += 1
+                want = ref[(token, id_type)]
+                if want[0] == "exc":
+                    h["refusal_followers"] += 1
+                if needs_inner_encoding(spec, token, id_type) and want[0] == "ok":
+                    h["inner_encoding_followups"] += 1
+                problems = []
+                if first != ref[(rt, ri)]:
+                    problems.append(("refused_call_repeated", rt, ri, ref[(rt, ri)], first))
+                if out != want:
+                    problems.append(("after_refused_call", token, id_type, want, out))
+                for feature, t, i, w, got in problems:
+                    h["differences"] += 1
+                    sig = {"kind": "history_dependent", "lang": lang, "config": cfg, "id_type": i, "feature": feature}
+                    key = json.dumps(sig, sort_keys=True, default=str)
+                    if key in bag.v:
+                        bag.add(sig, bag.v[key].case, bag.v[key].what)
+                        continue
+                    case = {"mode": "refusal_history", "lang": lang, "config": cfg, "refused": [rt, ri], "token": t, "id_type": i}
+                    _, after2, alone2 = two_step(lang, cfg, (rt, ri), t, i)
+                    if after2 != alone2:
+                        what = (
+                            f"[{lang}/{cfg}/{i}] filter_id({t!r}) -> {alone2!r} on a fresh language object, {after2!r} on an object "
+                            f"whose previous call filter_id({rt!r}, {ri!r}) was refused"
+                        )
+                    else:
+                        case = dict(case, row="deep" if deep else "wide", follower=[token, id_type])
+                        what = (
+                            f"[{lang}/{cfg}/{i}] filter_id({t!r}) -> {w!r} on an object that never refused a call, {got!r} in the "
+                            f"history (filter_id({rt!r}, {ri!r}) refused ; follower)* at follower {token!r}/{id_type}"
+                        )
+                    bag.add(sig, case, what)
+                # what comes back after a refusal must satisfy the statement as well
+                if out != want:
+                    f = spec.facts(token, id_type)
+                    for kind, feature, what in judge(spec, token, id_type, out, f):
+                        bag.add(
+                            {"kind": kind, "lang": lang, "config": cfg, "id_type": id_type, "feature": feature + "/after_refused_call"},
+                            {"mode": "refusal_history", "lang": lang, "config": cfg, "refused": [rt, ri], "token": token,
+                             "id_type": id_type, "row": "deep" if deep else "wide", "follower": [token, id_type]},  # fmt: skip
+                            f"[{lang}/{cfg}/{id_type}] after the refused filter_id({rt!r}, {ri!r}): {what}",
+                        )
+
+
+# ------------------------------------------------------------------------------------------ histories (7): language X ; Y
+def pair_tokens() -> typing.List[str]:
+    return list(dict.fromkeys(PAIR_TOKENS + DOCTEST_TOKENS))
+
+
+def pair_nodes(core_only: bool) -> typing.List[typing.Tuple[str, str]]:
+    return [(lang, cfg) for lang in LANGS for cfg in (PAIR_CORE_CONFIGS if core_only else ALL_CONFIGS)]
+
+
+def pair_histories(ctx: Ctx) -> typing.List[typing.Tuple[typing.Tuple[str, str], typing.Tuple[str, str]]]:
+    core = set(pair_nodes(True))
+    out = []
+    for x in pair_nodes(False):
+        for y in pair_nodes(False):
+            if (x in core and y in core) or ctx.in_slice(f"pair:{x[0]}/{x[1]}>{y[0]}/{y[1]}"):
+                out.append((x, y))
+    return out
+
+
+def pair_child(spec_path: str) -> None:
+    """Runs in a freshly started interpreter: imports nunavut, creates NOTHING, and forks one process per history."""
+    from vf.core import setup_paths
+
+    setup_paths()
+    import traceback
+
+    import nunavut.lang  # noqa: F401  pylint: disable=unused-import,import-outside-toplevel
+
+    with open(spec_path, encoding="utf-8") as f:
+        job = json.load(f)
+    tokens = job["tokens"]
+    results = []
+    for x, y in job["histories"]:
+        rd, wr = os.pipe()
+        pid = os.fork()
+        if pid == 0:
+            code = 3
+            try:
+                os.close(rd)
+                outs = []
+                for lang, cfg in (x, y):
+                    lo = make_language(lang, cfg)
+                    outs.append([list(call(lo, t, i)) for t in tokens for i in ID_TYPES])
+                with os.fdopen(wr, "w", encoding="ascii") as w:
+                    json.dump(outs, w)
+                code = 0
+            except BaseException:  # pylint: disable=broad-except
+                traceback.print_exc()
+            finally:
+                sys.stdout.flush()
+                sys.stderr.flush()
+                os._exit(code)
+        os.close(wr)
+        with os.fdopen(rd, "r", encoding="ascii") as r:
+            data = r.read()
+        _, status = os.waitpid(pid, 0)
+        if status != 0:
+            raise HarnessError(f"history {x} ; {y} failed in its process (status {status})")
+        results.append(json.loads(data))
+    with open(job["out"], "w", encoding="utf-8") as f:
+        json.dump(results, f)
+
+
+def run_pairs(scratch: typing.Any, name: str, histories: typing.Sequence, tokens: typing.Sequence[str]) -> typing.List:
+    """-> per history [outcomes of X, outcomes of Y] (token-major, id types inner), each history in its own process."""
+    spec_path = os.path.join(str(scratch), f"pairs-{name}.json")
+    out_path = os.path.join(str(scratch), f"pairs-{name}.out.json")
+    with open(spec_path, "w", encoding="utf-8") as f:
+        json.dump({"tokens": list(tokens), "histories": [[list(x), list(y)] for x, y in histories], "out": out_path}, f)
+    env = dict(os.environ)
+    env["PYTHONDONTWRITEBYTECODE"] = "1"
+    code = "import sys; sys.path.insert(0, sys.argv[1]); from vf.checks.c09 import pair_child; pair_child(sys.argv[2])"
+    p = subprocess.run(
+        [sys.executable, "-c", code, str(VERIF), spec_path], env=env, cwd=str(VERIF), stdout=subprocess.PIPE,
+        stderr=subprocess.STDOUT, text=True, timeout=900, check=False,
+    )  # fmt: skip
+    if p.returncode != 0 or not os.path.exists(out_path):
+        raise HarnessError(f"configuration-history process {name} failed ({p.returncode}):\n{p.stdout[-3000:]}")
+    with open(out_path, encoding="utf-8") as f:
+        got = json.load(f)
+    if len(got) != len(histories) or any(len(o) != len(tokens) * len(ID_TYPES) for h in got for o in h):
+        raise HarnessError(f"configuration-history process {name} returned a result of the wrong size")
+    return got
+
+
+def pairs_job(scratch: str, shard: int, histories: typing.Sequence, res: dict) -> None:
+    bag: Bag = res["bag"]
+    tokens = pair_tokens()
+    got = run_pairs(scratch, f"shard{shard}", histories, tokens)
+    calls = [(t, i) for t in tokens for i in ID_TYPES]
+    specs: typing.Dict[typing.Tuple[str, str], Spec] = {}
+    for (x, y), (_, out_y) in zip(histories, got):
+        y = tuple(y)
+        spec = specs.setdefault(y, Spec(y[0], y[1]))
+        for (token, id_type), out in zip(calls, out_y):
+            out = tuple(out)
+            for kind, feature, what in judge(spec, token, id_type, out, spec.facts(token, id_type)):
+                bag.add(
+                    {"kind": kind, "lang": y[0], "config": y[1], "id_type": id_type, "feature": f"{feature}/after_language:{x[0]}/{x[1]}"},
+                    {"mode": "config_history", "first": list(x), "second": list(y), "token": token, "id_type": id_type},
+                    f"[{y[0]}/{y[1]}/{id_type}] created and used after a {x[0]}/{x[1]} language in the same process: {what}",
+                )
+    res["pairs"] = [[list(x), list(y), ox, oy] for (x, y), (ox, oy) in zip(histories, got)]
+
+
+def compare_pairs(ctx: Ctx, pairs: typing.Sequence) -> typing.Dict[str, int]:
+    """Y after X against Y first-in-process; every first-in-process copy of a node against the others."""
+    tokens = pair_tokens()
+    calls = [(t, i) for t in tokens for i in ID_TYPES]
+    base: typing.Dict[typing.Tuple[str, str], list] = {}
+    stats = {"histories": len(pairs), "comparisons": 0, "nodes": 0, "distinct_first_nodes": 0}
+    for x, _, ox, _ in pairs:
+        x = tuple(x)
+        if x not in base:
+            base[x] = ox
+            continue
+        for (token, id_type), a, b in zip(calls, base[x], ox):
+            stats["comparisons"] += 1
+            if a != b:
+                ctx.violation(
+                    {"kind": "process_dependent", "lang": x[0], "config": x[1], "id_type": id_type, "feature": "first_language_of_a_process"},
+                    {"mode": "config_history", "first": list(x), "second": list(x), "token": token, "id_type": id_type},
+                    f"[{x[0]}/{x[1]}/{id_type}] {token!r}: {a!r} and {b!r} in two fresh processes",
+                )
+    stats["distinct_first_nodes"] = len(base)
+    for x, y, _, oy in pairs:
+        x, y = tuple(x), tuple(y)
+        if y not in base:
+            raise HarnessError(f"no first-in-process evaluation of {y}")
+        for (token, id_type), a, b in zip(calls, base[y], oy):
+            stats["comparisons"] += 1
+            if a != b:
+                ctx.violation(
+                    {"kind": "history_dependent", "lang": y[0], "config": y[1], "id_type": id_type, "feature": f"after_language:{x[0]}/{x[1]}"},
+                    {"mode": "config_history", "first": list(x), "second": list(y), "token": token, "id_type": id_type},
+                    f"[{y[0]}/{y[1]}/{id_type}] filter_id({token!r}) -> {tuple(a)!r} when the language is the first of its process, "
+                    f"{tuple(b)!r} after a {x[0]}/{x[1]} language was created and used in the same process",
+                )
+    stats["nodes"] = len({tuple(y) for _, y, _, _ in pairs})
+    return stats
+
+
+def pair_leak_witnesses() -> int:
+    """Number of (X, Y, token): X's configuration reserves the token, for Y it is an already valid identifier (oracle side)."""
+    n = 0
+    nodes = pair_nodes(True)
+    specs = {node: Spec(*node) for node in nodes}
+    for x in nodes:
+        for y in nodes:
+            for t in pair_tokens():
+                if t in specs[x].reserved and specs[x].stropping and specs[y].facts(t, "any") == (True, False, False, False):
+                    n += 1
+    return n
+
+
 # ------------------------------------------------------------------------------------------ entry points
 SAMPLE_CASES = [
     ("c", "default", "macro", "EA"),
@@ -639,6 +987,12 @@ def run(ctx: Ctx) -> int:
     ]
 
     jobs: typing.List[tuple] = []
+    histories = pair_histories(ctx)
+    for k in range(PAIR_SHARDS):
+        jobs.append(("pairs", "-", "-", str(ctx.scratch), k, histories[k::PAIR_SHARDS]))
+    for lang in LANGS:
+        for cfg in ALL_CONFIGS:
+            jobs.append(("refusal", lang, cfg, ctx.thorough))
     prefixes = ["".join(p) for p in itertools.product(ALPHABET, repeat=2)]
     for lang in LANGS:
         for cfg in CONFIGS:
@@ -656,8 +1010,22 @@ def run(ctx: Ctx) -> int:
     mine: typing.Dict[str, list] = {}
     per_lc: typing.Dict[str, set] = {}
     len5_space = len5_done = 0
+    hist: typing.Dict[str, typing.Any] = {}
+    hist_nodes: typing.Dict[str, dict] = {}
+    hist_shapes: set = set()
+    pairs: typing.List = []
     for r in results:
         ctx.bag.merge(r["bag"])
+        if r["kind"] == "refusal":
+            h = r["hist"]
+            hist_shapes |= h.pop("shapes")
+            hist_nodes[f"{r['lang']}|{r['cfg']}"] = h
+            for k, n in h.items():
+                hist[k] = hist.get(k, 0) + n
+            continue
+        if r["kind"] == "pairs":
+            pairs += r["pairs"]
+            continue
         evals += r["evals"]
         tokens += r["tokens"]
         nontrivial += r["nontrivial"]
@@ -677,6 +1045,21 @@ def run(ctx: Ctx) -> int:
 
     docs = {name: collect_child(p, out_path, name) for name, p, out_path in children}
     compared = compare_processes(ctx, mine, docs, dtoks)
+    pair_stats = compare_pairs(ctx, pairs)
+
+    # ---- vacuity guards of the history families (all computed from the space / the oracle side)
+    if not ctx.bag.v:
+        for lang in LANGS:
+            for cfg in MUST_REFUSE:
+                h = hist_nodes[f"{lang}|{cfg}"]
+                if not h["rows"] or not h["inner_encoding_followups"]:
+                    raise HarnessError(
+                        f"vacuous exploration: no refused call / no follower needing encoding after its first character for {lang}/{cfg}: {h}"
+                    )
+        if pair_stats["distinct_first_nodes"] != pair_stats["nodes"] or pair_stats["histories"] < len(pair_nodes(True)) ** 2:
+            raise HarnessError(f"vacuous exploration: configuration histories incomplete: {pair_stats}")
+        if pair_leak_witnesses() < 2:
+            raise HarnessError("vacuous exploration: no token that one configuration reserves and another one accepts as it is")
 
     # ---- vacuity guards: every mechanism of the anchored code must have been exercised for every language/config
     for key, seen in sorted(per_lc.items()):
@@ -734,6 +1117,10 @@ def run(ctx: Ctx) -> int:
         handler_calls=handlers,
         cross_process_comparisons=compared,
         determinism_subsample_tokens=len(dtoks),
+        refusal_histories=hist,
+        refusing_nodes=sorted(k for k, h in hist_nodes.items() if h["rows"]),
+        refusal_reference_classes=len(hist_shapes),
+        configuration_histories=pair_stats,
         outcome_classes=sorted(f"{l}:{''.join('SERP'[i] if b else '-' for i, b in enumerate(f))}:{sh}" for l, f, sh in classes),
     )
     cov = {
@@ -741,6 +1128,10 @@ def run(ctx: Ctx) -> int:
         "distinct_nontrivial": nontrivial,
         "distinct_outcomes": len(classes),
         "cross_process_comparisons": compared,
+        "refusal_history_followups": hist.get("followups", 0),
+        "refusal_history_rows": hist.get("rows", 0),
+        "configuration_histories": pair_stats["histories"],
+        "configuration_history_comparisons": pair_stats["comparisons"],
         "rule": "one evaluation = one distinct (token, id_type, language, configuration) tuple passed to the real "
         "Language.filter_id (called twice: cold + warm cache) and judged by the configuration-derived oracle; tokens are "
         "de-duplicated so every tuple is counted once; non-trivial = the call did not return its input unchanged "
@@ -750,7 +1141,11 @@ def run(ctx: Ctx) -> int:
         f"witness/near-miss per reserved pattern ({len(configured_patterns())} patterns) + exotic strings len<=3 "
         f"({len(core)} core tokens); length {FULL_LEN}: {len5_done}/{len5_space} strings; x {len(ID_TYPES)} id types x "
         f"{len(LANGS)} languages x {len(CONFIGS)} configurations; determinism: {len(dtoks)} tokens x all id types/languages/"
-        f"configurations in {len(CHILDREN)} fresh processes",
+        f"configurations in {len(CHILDREN)} fresh processes; histories on one object: {hist.get('rows', 0)} refused calls "
+        f"({hist.get('deep_rows', 0)} with the full follower set) on {len([1 for h in hist_nodes.values() if h['rows']])} of "
+        f"{len(hist_nodes)} language x configuration nodes, {hist.get('followups', 0)} follower calls each directly after a "
+        f"refusal; histories in one process: {pair_stats['histories']} of {len(pair_nodes(False)) ** 2} ordered pairs of "
+        f"(language, configuration) x {len(pair_tokens())} tokens x {len(ID_TYPES)} id types, each pair in its own process",
         "exhaustive": bool(ctx.thorough),
     }
     return ctx.finish(
@@ -763,6 +1158,10 @@ def run(ctx: Ctx) -> int:
             "id_type `any` = patterns of every category (filter_id docstring / DESIGN C09); `path` has no category of its own, so only `all` patterns are demanded",
             "with enable_stropping=false only syntax validity, determinism and identity on already-valid unreserved inputs are demanded",
             "an exception of any type counts as 'raises an error' (allowed), except for inputs that are already valid",
+            "histories: 'depends only on the input' is read as: the outcome (value, or the type of the error) of a call equals the outcome of "
+            "the same call on a fresh language object of the same configuration / in a process where that language is the first one; the "
+            "reference objects of family (6) have only successful calls in their history (a reported difference is re-executed against a really fresh object)",
+            "a process forked from a freshly started interpreter that has only imported nunavut.lang stands for a fresh process",
         ],
         min_outcomes=("distinct_outcomes", 20),
     )
@@ -792,7 +1191,64 @@ def _replay_history(case: dict) -> typing.Tuple[Outcome, Outcome, typing.List[ty
     return out, fresh, judge(spec, case["token"], case["history"][-1], out, f)
 
 
+def _replay_refusal(case: dict) -> int:
+    lang, cfg, refused, token, id_type = case["lang"], case["config"], case["refused"], case["token"], case["id_type"]
+    spec = Spec(lang, cfg)
+    first, after, alone = two_step(lang, cfg, refused, token, id_type)
+    how = f"directly after filter_id({refused[0]!r}, {refused[1]!r}) -> {first!r} on the same object"
+    if after == alone and case.get("row"):
+        fol = case["follower"]
+        deep = case["row"] == "deep"
+        if (token, id_type) == tuple(fol):
+            after = chain(lang, cfg, refused, deep, (token, id_type))
+        else:  # the refused call itself, repeated in the chain
+            lo = make_language(lang, cfg)
+            for f in hist_followers(deep, refused[0]):
+                for i in ID_TYPES:
+                    after = call(lo, refused[0], refused[1])
+                    if (f, i) == tuple(fol):
+                        break
+                    call(lo, f, i)
+                else:
+                    continue
+                break
+        how = f"in the history (filter_id({refused[0]!r}, {refused[1]!r}) ; follower)* of the {case['row']} row at follower {fol}"
+    print(f"[{lang}/{cfg}] filter_id({token!r}, {id_type!r}) on a fresh object -> {alone!r}")
+    print(f"  {how} -> {after!r}")
+    rc = 0
+    if after != alone:
+        print("  violates: the result depends on earlier calls, not only on the input")
+        rc = 1
+    for kind, feature, what in judge(spec, token, id_type, after, spec.facts(token, id_type)):
+        print(f"  violates: {kind}/{feature}: {what}")
+        rc = 1
+    return rc
+
+
+def _replay_config_history(ctx: Ctx, case: dict) -> int:
+    x, y, token, id_type = tuple(case["first"]), tuple(case["second"]), case["token"], case["id_type"]
+    got = run_pairs(ctx.scratch, "replay", [(x, y), (y, y)], [token])
+    idx = ID_TYPES.index(id_type)
+    after, alone = tuple(got[0][1][idx]), tuple(got[1][0][idx])
+    spec = Spec(y[0], y[1])
+    print(f"[{y[0]}/{y[1]}] filter_id({token!r}, {id_type!r}) with the language created first in its process -> {alone!r}")
+    print(f"  created and used after a {x[0]}/{x[1]} language in the same process -> {after!r}")
+    rc = 0
+    if after != alone:
+        print("  violates: the result depends on what the process did before, not only on the input and the configuration")
+        rc = 1
+    for kind, feature, what in judge(spec, token, id_type, after, spec.facts(token, id_type)):
+        print(f"  violates: {kind}/{feature}: {what}")
+        rc = 1
+    return rc
+
+
 def replay(ctx: Ctx, case: dict) -> int:
+    if case.get("mode") in ("refusal_history", "config_history"):
+        rc = _replay_refusal(case) if case["mode"] == "refusal_history" else _replay_config_history(ctx, case)
+        if rc == 0:
+            print("  satisfies the statement")
+        return rc
     if case.get("mode") == "history":
         with_history, fresh, v = _replay_history(case)
         print(f"[{case['lang']}/{case['config']}] filter_id({case['token']!r}, t) for t in {case['history']} on one object -> {with_history!r}")
